@@ -38,11 +38,9 @@ OUT = ["ok", "range", "client", "other", "timeout", "slow_ok"]
 
 def _grpc():
     import grpc
+    from grpc.aio import AioRpcError
 
-    class E_(grpc.aio.AioRpcError):
-        def __init__(self):
-            pass
-    return E_()
+    return AioRpcError(code=grpc.StatusCode.OUT_OF_RANGE, initial_metadata=None, trailing_metadata=None, details="out of range", debug_error_string="")
 
 
 def make_api(ex, calls, outcomes, all_ok=False):
@@ -57,7 +55,9 @@ def make_api(ex, calls, outcomes, all_ok=False):
                 await asyncio.sleep(1.0)
                 return
             if o == "range":
-                raise OperationOutOfRange(server_url="x", operation="y", grpc_error=_grpc())
+                err = OperationOutOfRange(server_url="x", operation="y", grpc_error=_grpc())
+                assert isinstance(err, OperationOutOfRange)
+                raise err
             if o == "client":
                 raise ApiClientError(server_url="x", operation="y", description="d", retryable=False)
             if o == "other":
